@@ -323,6 +323,8 @@ class SMMonitor:
                             L["done_after"] = True
                         if ctx == "engine":
                             L["engine_done"] = True
+                            if L["eng0"] and not L["any_cmp_true"] and not L.get("statefn_done") and not L.get("contra") and not auto:
+                                err("C04.M6", "the machine stopped itself (engine done()) in an iteration for which engage() was called and in which no state expired: there is no cause of stopping")
                 if api == "next_state_now" and ctx == "statefn" and L["in_iter"]:
                     L["nows"] += 1
                     if L.get("statefn_done"):
